@@ -20,10 +20,23 @@ structure HState where
   expected : Nat           -- the number of leaks the test declared (default zero)
 deriving Repr, Inhabited
 
-/-- meaning of one performed command -/
+/-- a new block: outstanding, and a block of the running test -/
+def hAlloc (h : HState) (id : Nat) : HState :=
+  if id ∈ h.live then h else { h with live := id :: h.live, mine := id :: h.mine }
+
+/-- a block is released, whoever allocated it -/
+def hFree (h : HState) (id : Nat) : HState :=
+  { h with live := h.live.filter (· != id), mine := h.mine.filter (· != id) }
+
+/-- meaning of one performed command.  A successful realloc releases the old block and is a new
+    allocation of the test that performs it (the resulting block belongs to THAT test, whoever
+    allocated the old one); a failed realloc changes nothing. -/
 def hexec (h : HState) : Cmd → HState
-  | .alloc id _ => if id ∈ h.live then h else { h with live := id :: h.live, mine := id :: h.mine }
-  | .free id => { h with live := h.live.filter (· != id), mine := h.mine.filter (· != id) }
+  | .alloc id _ => hAlloc h id
+  | .free id => hFree h id
+  | .realloc id newId _ =>
+    if id ∉ h.live then h else if newId ≠ id ∧ newId ∈ h.live then h else hAlloc (hFree h id) newId
+  | .reallocFail _ _ => h
   | .expectLeaks n => { h with expected := n }
   | .ignoreLeaks => { h with ignore := true }
   | .fail => { h with own := h.own + 1, aborted := true }
@@ -83,8 +96,24 @@ def dropFrees (id : Nat) (cs : List Cmd) : List Cmd := cs.filter (· != .free id
 def Test.dropFrees (t : Test) (id : Nat) : Test :=
   { t with setup := Hist.dropFrees id t.setup, body := Hist.dropFrees id t.body, teardown := Hist.dropFrees id t.teardown }
 
-/-- the test never allocates `id` -/
-def neverAllocs (id : Nat) (cs : List Cmd) : Prop := ∀ sz, Cmd.alloc id sz ∉ cs
+def isReallocFail : Cmd → Bool
+  | .reallocFail _ _ => true
+  | _ => false
+
+/-- the test with every failed realloc deleted from its phases -/
+def Test.dropReallocFails (t : Test) : Test :=
+  { t with setup := t.setup.filter (fun c => !isReallocFail c), body := t.body.filter (fun c => !isReallocFail c),
+           teardown := t.teardown.filter (fun c => !isReallocFail c) }
+
+/-- the command neither allocates `id` nor reallocs it (as source or as result) -/
+def leavesAlone (id : Nat) : Cmd → Bool
+  | .alloc x _ => x != id
+  | .realloc x y _ => x != id && y != id
+  | _ => true
+
+/-- apart from freeing it, the commands do nothing with block `id`: they never allocate it and
+    never realloc it (neither as the old nor as the resulting block) -/
+def neverAllocs (id : Nat) (cs : List Cmd) : Prop := ∀ c ∈ cs, leavesAlone id c = true
 
 end Hist
 
